@@ -28,6 +28,9 @@ Definition status_of (e : serr) : nat :=
   | E_BadToken => 400      (* after fix D12 (was 500) *)
   end.
 
+(* the statuses the relationship handlers can answer with while the database works (Store/Robust.v proves it) *)
+Definition store_statuses : list nat := [200; 201; 204; 400; 404].
+
 (* protoTuplesWithAction: the deltas of one action, decoded with FromDataProvider *)
 Definition transact_tuples (a : action) (ds : list (action * ptuple)) : res (list tuple) :=
   fold_right (fun (x : action * ptuple) (acc : res (list tuple)) =>
